@@ -9,12 +9,12 @@
                   the cases; the Go harness drives the real Client / StreamableClientTransport through a wire-faithful
                   in-process RoundTripper into the real stateless handler; HeaderMirrorMon judges the real outcomes.
 """
-import collections, json, os
+import collections, json, os, re
 import vlib
 
 PID = "C12"
 GATE_K = {"quick": 3, "thorough": 5}
-GATE_REPS = {"quick": 2, "thorough": 1}
+GATE_REPS = {"quick": 2, "thorough": 2}
 MIRROR_REPS = {"quick": 1, "thorough": 8}
 HARNESS = ["mcp/c12_httpgate_test.go"]
 DIMS = ["listener", "host", "ctype", "accept", "body", "vhdr", "meta", "mm", "mn", "mp", "msg"]
@@ -44,6 +44,23 @@ def mirror_sig(e):
     else:
         how = "failed" + (",code=%d" % o["code"] if o["code"] else "")
     return "mirror:value=%s:%s" % (mirror_value_name(e["c"]), how)
+
+
+def sdk_panic(gout):
+    """True when the go test output shows a panic raised from SDK (non-test) code: the first frame below the
+    runtime's own that has a source position lies in the module, not in a _test.go / harness file."""
+    if "panic:" not in gout:
+        return False
+    tail = gout.split("panic:", 1)[1]
+    for line in tail.splitlines():
+        m = re.match(r"^\s+(/\S+\.go):\d+", line)
+        if not m:
+            continue
+        path = m.group(1)
+        if "/src/runtime/" in path or "/src/testing/" in path or "/src/internal/" in path:
+            continue
+        return ("/mcp/" in path or "/internal/" in path or "/jsonrpc" in path) and not path.endswith("_test.go")
+    return False
 
 
 def key(c):
@@ -135,7 +152,7 @@ def run(tier, seed, replay):
         vlib.write_ndjson(gin, gcases)
         rc, gout, wall = run_go("TestVerif_C12Gate", gin, gobs, seed, greps, 1500)
         if rc != 0:
-            if "panic:" in gout and "go-sdk/mcp." in gout and "zz_verif_" not in gout.split("panic:")[1][:1500]:
+            if sdk_panic(gout):
                 v.violation("gate:panic", "an HTTP handler panicked while serving a generated request", {"table": "gate", "output": gout[-3000:]})
                 return v.finish()
             raise vlib.MachineryError("C12 gate harness failed:\n" + gout[-3000:])
@@ -147,7 +164,7 @@ def run(tier, seed, replay):
         vlib.write_ndjson(min_, mcases)
         rc, gout, wall = run_go("TestVerif_C12Mirror", min_, mobs, seed, mreps, 1500)
         if rc != 0:
-            if "panic:" in gout and "go-sdk/mcp." in gout and "zz_verif_" not in gout.split("panic:")[1][:1500]:
+            if sdk_panic(gout):
                 v.violation("mirror:panic", "client or server panicked during a generated tools/call", {"table": "mirror", "output": gout[-3000:]})
                 return v.finish()
             raise vlib.MachineryError("C12 mirror harness failed:\n" + gout[-3000:])
